@@ -179,7 +179,8 @@ class Stmts(FnCtx):
             if not str(self.lw.te.canon(rt)).replace('const ', '').startswith('std::pair<') or len(binds) != 2:
                 self.err(d, 'structured binding over an external type %r / %r' % (rt, self.lw.te.canon(rt)))
             for b, fname in zip(binds, ('first', 'second')):
-                self.bindings[b['id']] = '%s.%s' % (base, fname)
+                fm = self.lw.cfg.get('field_map', {}).get('%s.%s' % (self.lw.ext_record_cname(rt), fname))
+                self.bindings[b['id']] = '(*%s.%s)' % (base, fm) if fm else '%s.%s' % (base, fname)
             return out
         for b, (fname, _, fnode) in zip(binds, r.fields):
             self.bindings[b['id']] = '%s.%s' % (base, fname)
